@@ -59,6 +59,8 @@ pub struct World {
     /// percent of satisfiability answers replaced by an arbitrary one
     pub flip_pct: u64,
     pub queries: RefCell<Vec<(u32, Ans, bool)>>,
+    /// (transaction, height the answer rests on), in query order
+    pub answer_heights: RefCell<Vec<(u32, u32)>>,
     pub mined_queries: RefCell<u64>,
 }
 
@@ -77,6 +79,7 @@ impl World {
             seed,
             flip_pct,
             queries: RefCell::new(vec![]),
+            answer_heights: RefCell::new(vec![]),
             mined_queries: RefCell::new(0),
         }
     }
@@ -224,6 +227,10 @@ impl World {
                 }
             }
         };
+        let as_of = match &ans {
+            StepSatisfiability::Satisfiable { as_of_height } | StepSatisfiability::NotYetSatisfiable { as_of_height } | StepSatisfiability::Unsatisfiable { as_of_height, .. } => u32::from(*as_of_height),
+        };
+        self.answer_heights.borrow_mut().push((id, as_of));
         self.queries.borrow_mut().push((id, cls, flipped));
         ans
     }
